@@ -162,6 +162,21 @@ func (e *Engine) intrinsic(fr *Frame, st *State, ins ssa.Instruction, fn *ssa.Fu
 				unsupported("fresh() needs an old state")
 			}
 			return tb.IntCmp(">=", tb.RootID(e.sBase(args[0].(*Term))), fr.old.clock), true
+		case "rangeIdx":
+			// rangeIdx(): the hidden index of the (single) range loop of the function under
+			// verification: -1 before the first iteration, then the index last visited
+			var found *Term
+			n := 0
+			for c, v := range st.cells {
+				if c.name == "rangeindex" && v.Sort == SBV64 {
+					found = v
+					n++
+				}
+			}
+			if n != 1 {
+				unsupported("rangeIdx(): %d range loops in scope", n)
+			}
+			return found, true
 		case "freshObj":
 			// freshObj(p): the object p points to was allocated during this call (p is passed as interface{})
 			if fr.old == nil {
